@@ -186,6 +186,9 @@ def run_ws(W: dict) -> dict:
 
             class FakeSpot:
                 async def create_listen_key(self):
+                    if fail["delay_token"] > 0:
+                        ms, fail["delay_token"] = fail["delay_token"], 0
+                        await asyncio.sleep(ms / 1000)
                     if fail["keys"] > 0:
                         fail["keys"] -= 1
                         raise RuntimeError("scripted: listen key creation failed")
